@@ -156,7 +156,7 @@ class Lexer:
             (TOKEN_AND, self.logical_and_pattern),
             (TOKEN_OR, self.logical_or_pattern),
             *[
-                (token, re.escape(pattern))
+                (token, self._identifier_pattern(pattern))
                 for token, pattern in sorted(
                     env_tokens, key=lambda x: len(x[1]), reverse=True
                 )
@@ -196,6 +196,17 @@ class Lexer:
             "|".join(f"(?P<{token}>{pattern})" for token, pattern in rules),
             re.DOTALL,
         )
+
+    def _identifier_pattern(self, identifier: str) -> str:
+        """Return a pattern matching the identifier token _identifier_.
+
+        An identifier that looks like a name, such as the default `_`, must not
+        match the start of a longer name, like `_a`.
+        """
+        pattern = re.escape(identifier)
+        if re.fullmatch(self.key_pattern, identifier):
+            pattern += r"(?![\u0080-\U0010FFFFa-zA-Z0-9_-])"
+        return pattern
 
     def tokenize(self, path: str) -> Iterator[Token]:  # noqa PLR0912
         """Generate a sequence of tokens from a JSONPath string."""
